@@ -26,7 +26,8 @@ Oracle (independent re-computation; centroid by math.fsum, radii by hypot, all-p
   relocate.never_outward       |out-c| <= r+eps
   relocate.nearest_border_radius  r > rmin-eps => |out-c| = min(r, |b*-c|) for a border point b* whose distance to p is
                                within eps of the smallest distance (ties accepted)
-  relocate.unmoved_bitwise     every such b* has |b*-c| > r+eps  => output bit-for-bit equal to the input
+  relocate.unmoved_bitwise     every such b* has |b*-c| > r+eps, or p coincides exactly with a border point (its nearest
+                               border point is then itself, with exactly its own radius)  => output bit-for-bit equal
   relocate.max_radius          |out-c| <= rmax+eps
   Points within eps of rmin, or whose nearest border radius is within eps of r, are in the tie band of DESIGN 1.8:
   either reading is accepted there and the band is counted. The same judge is the icontract post-condition of
@@ -55,7 +56,7 @@ RULE = ("reloc: one case = (mask, sub-size map, distorted source grid with pushe
         "relocation left at least one strictly interior point untouched and moved at least one point (both sides of the "
         "rule exercised); cases with an empty border are out of the statement's domain and counted as skipped")
 BOUNDS = {"quick": "1600 seeded reloc cases (masks 3..9 x 3..9, <=40 unmasked pixels, sub sizes 1..4); subenum: all masks with H*W<=9 x 6 sub-size maps",
-          "thorough": "16000 seeded reloc cases; subenum: all masks with H*W<=12 x 6 sub-size maps"}
+          "thorough": "40000 seeded reloc cases; subenum: all masks with H*W<=12 x 6 sub-size maps"}
 EXHAUSTIVE = {"quick": False, "thorough": False}
 ASSUMPTIONS = ["tie band: points within 1e-9*scale of the minimum border radius, of their nearest border point's radius, or with two "
                "border points within 1e-9*scale of the smallest distance accept either reading (counted in skipped_or_dont_care)",
@@ -77,7 +78,7 @@ MIN_MONITORS = {"*": {"contract:grid_2d_util.relocated_grid_via_jit_from": 1,
                       "sub_border.count": 1, "sub_border.in_its_border_pixel": 1, "sub_border.farthest_subpixel": 1,
                       "sub_border.grid": 1, "border_grid.coordinates": 1}}
 
-NRELOC = {"quick": 1600, "thorough": 16000}
+NRELOC = {"quick": 1600, "thorough": 40000}
 SUBENUM_CELLS = {"quick": 9, "thorough": 12}
 TOL = 1e-9
 
@@ -185,7 +186,9 @@ def judge(grid, border, out, tol=TOL):
         # every nearest candidate is farther out than the point itself -> the point must not move at all
         rc_min = np.where(cand, rb[None, :], np.inf).min(axis=1)
         rc_max = np.where(cand, rb[None, :], -np.inf).max(axis=1)
-        stay = (rc_min > r[idx] + eps[idx]) & ~band_rmin[idx]
+        # ... and so must a point that coincides exactly with a border point (distance exactly 0: that border point is
+        # its nearest one and has exactly its radius, which is not smaller than its own)
+        stay = ((rc_min > r[idx] + eps[idx]) & ~band_rmin[idx]) | (dmin == 0.0)
         bad = np.flatnonzero(stay & ~same[idx])
         res["unmoved_bitwise"] = (bad.size == 0, wit(idx[bad[0]], nearest_border_radii=rb[cand[bad[0]]]) if bad.size else {})
         n_must_move = int((rc_max < r[idx] - eps[idx]).sum())
